@@ -1,4 +1,4 @@
-HOOK_COMMITS = ["57ac42604afe0a9cfd866181f1b826dd9676d18a"]
+HOOK_COMMITS = ["57ac42604afe0a9cfd866181f1b826dd9676d18a", "75d54ed3b331393ef8ceec27b63bd5c3dbd0c67e"]
 NOT_APPLICABLE = {}
 _NOTE = ("Bounded: TLC explores the specification exhaustively only inside the small constants of the MC_*.cfg files; beyond them the claim rests on "
          "trace validation of recorded executions (exhaustive small alphabets + seeded structured random inputs, threshold-directed widths). Trusted: TLC, "
